@@ -171,7 +171,7 @@ var propertyEntries = map[string][]string{
 	"C05": {"pkg/core.Diff", "pkg/core.Update", "pkg/core.Publish", "pkg/core.Upload"},
 	"C06": {"pkg/core.Upload", "pkg/core.UploadSpecificKeys", "pkg/core.ListBundles", "pkg/core.ListBundlesApply", "pkg/core.GetLatestBundle", "pkg/core.Publish", "pkg/core.Diamond.Commit", "pkg/core.GetBundleTimeStamp"},
 	"C07": {"pkg/core.ListRepos", "pkg/core.ListReposApply", "pkg/core.ListBundles", "pkg/core.ListBundlesApply", "pkg/core.ListLabels", "pkg/core.ListLabelsApply", "pkg/core.ListDiamonds", "pkg/core.ListDiamondsApply", "pkg/core.ListSplits", "pkg/core.ListSplitsApply"},
-	"C08": {"pkg/core.Label.", "pkg/core.ListLabels", "pkg/core.ListLabelsApply", "pkg/core.DeleteLabel", "pkg/core.GetLabelStore", "pkg/model.NewLabelDescriptor", "pkg/model.LabelName", "pkg/core.NewLabel"},
+	"C08": {"pkg/core.Label.", "pkg/core.ListLabels", "pkg/core.ListLabelsApply", "pkg/core.DeleteLabel", "pkg/core.DeleteRepo", "pkg/core.RepoSquash", "pkg/core.GetLabelStore", "pkg/model.NewLabelDescriptor", "pkg/model.LabelName", "pkg/core.NewLabel"},
 	"C09": {"pkg/core.CreateRepo", "pkg/core.DeleteRepo", "pkg/core.RenameRepo", "pkg/core.DeleteEntriesFromRepo", "pkg/core.GetRepo", "pkg/core.ListRepos", "pkg/core.RepoExists"},
 	"C10": {"pkg/core.RepoSquash", "pkg/core.ListBundles", "pkg/core.ListLabels", "pkg/core.Publish"},
 	"C11": {"pkg/core.Diamond.Commit", "pkg/core.Split.Upload", "pkg/core.Split.implUpload", "pkg/core.DownloadMetadata", "pkg/core.CreateSplit", "pkg/core.CreateDiamond"},
@@ -259,6 +259,19 @@ var sharedPool = []sharedRule{
 	{"get-builds-its-reader", func(c *Ctx, r string) { checkGetBuildsItsReader(c, r) }},
 	{"writeto-counts-what-it-copied", func(c *Ctx, r string) { checkWriteToCountsWhatItCopied(c, r) }},
 	{"local-metadata-scanners-skip-data", func(c *Ctx, r string) { checkLocalMetadataScannersSkipData(c, r) }},
+	{"bundle-descriptor-deleted-last", func(c *Ctx, r string) { checkBundleDescriptorDeletedLast(c, r) }},
+	{"keys-cache-only-verified", func(c *Ctx, r string) { checkKeysCacheOnlyVerified(c, r) }},
+	{"writer-buf-leaf-sized", func(c *Ctx, r string) { checkWriterBufIsLeafSized(c, r) }},
+	{"glob-cache-writers", func(c *Ctx, r string) { checkGlobCacheWriters(c, r) }},
+	{"nothing-deleted-after-repo-descriptor", func(c *Ctx, r string) { checkNothingDeletedAfterRepoDescriptor(c, r) }},
+	{"squash-relists-before-label-cleanup", func(c *Ctx, r string) { checkSquashRelistsBeforeLabelCleanup(c, r) }},
+	{"upload-indexer-fresh-per-attempt", func(c *Ctx, r string) { checkUploadIndexerFreshPerAttempt(c, r) }},
+	{"closed-channel-not-shared", func(c *Ctx, r string) { checkClosedChannelNotShared(c, r) }},
+	{"keys-unfiltered", func(c *Ctx, r string) { checkKeysUnfiltered(c, r) }},
+	{"mkdir-not-memoised", func(c *Ctx, r string) { checkMkdirNotMemoised(c, r) }},
+	{"parser-ids-opaque", func(c *Ctx, r string) { checkParserIDsOpaque(c, r) }},
+	{"reused-decode-targets", func(c *Ctx, r string) { checkReusedDecodeTargets(c, r) }},
+	{"env-var-key-verbatim", func(c *Ctx, r string) { checkEnvVarKeyVerbatim(c, r) }},
 	{"effects", func(c *Ctx, r string) {
 		checkEffectDominance(c, r, "pkg/cafs", "pkg/core", "pkg/fuse", "pkg/storage/localfs", "pkg/wal", "pkg/filetracker")
 	}},
